@@ -14,6 +14,7 @@ S  Independent oracles on the real run: first command the strict process rejects
 """
 import itertools
 import json
+from fractions import Fraction
 import os
 import signal
 import sys
@@ -28,7 +29,7 @@ sys.path.insert(0, HARNESS)
 import refsolver  # noqa: E402  (reader / renderer and the in-process Strict machine for the second tie)
 
 LEAN_MODULES = ["PySMT.Props.C17"]
-RULE = ("API-call sequences over add_assertion(14 formulas: Bool/BV/Int/one 0-ary and one binary custom sort/arrays whose "
+RULE = ("API-call sequences over add_assertion(21 formulas: Bool/BV/Int/Real over six exact rationals/custom sorts of arity 0 and 2, some with names that need quoting/symbols named like generated let binders/arrays whose "
         "index or element sort is a custom sort occurring nowhere else, overlapping symbols) / push(0|1|2|3) / pop(0|1|2|3) / "
         "solve / get_value / get_model / reset_assertions / is_sat / is_valid / is_unsat, user-legal (pop within the user's "
         "stack, get_value/get_model only directly after a sat verdict); every case in one of 3 environments of the process, "
@@ -85,7 +86,16 @@ class Pool(object):
         j1, j2 = S("j1", BV1), S("j2", BV1)
         m1 = S("m1", tm.ArrayType(BV1, V))
         m2 = S("m2", tm.ArrayType(BV1, tm.ArrayType(V, BOOL)))
-        self.symbols = {}       # name -> dict(node, sort, uses, dom, custom)
+        # exact rationals (Real symbols range over refsolver.REALS); names that need |...| quoting (blank, parenthesis,
+        # leading digit) for symbols and for declared sorts; symbols named like the names the DAG printer generates
+        from pysmt.typing import REAL
+        dQ = list(refsolver.REALS)
+        MS, S2 = tm.Type("my sort"), tm.Type("2nd")
+        q1, q2 = S("q1", REAL), S("q2", REAL)
+        wa, wb = S("a b", MS), S("(x)", MS)
+        wc, wc2 = S("1st", S2), S("2 (nd)", S2)
+        d0, d1 = S(".def_0", BOOL), S(".def_1", BOOL)
+        self.symbols = {}       # key -> dict(node, name, sort, uses, dom, custom); key = name unless the name is odd
         dB, dV, dI, dU = [False, True], [0, 1, 2, 3], list(range(-INT_RANGE, INT_RANGE + 1)), list(range(USIZE))
         for n, node, sort, uses, dom in [
                 ("a", a, "Bool", [], dB), ("b", b, "Bool", [], dB), ("c", c, "Bool", [], dB),
@@ -98,9 +108,16 @@ class Pool(object):
                 # an array value is the tuple of its elements (index 0, index 1)
                 ("m1", m1, "(Array (_ BitVec 1) V)", ["V"], list(itertools.product(dU, repeat=2))),
                 ("m2", m2, "(Array (_ BitVec 1) (Array V Bool))", ["V"],
-                 list(itertools.product(list(itertools.product(dB, repeat=USIZE)), repeat=2)))]:
-            self.symbols[n] = {"node": node, "sort": sort, "uses": uses, "dom": dom, "custom": bool(uses)}
-        self.sort_arity = {"U": 0, "Pair": 2, "V": 0}
+                 list(itertools.product(list(itertools.product(dB, repeat=USIZE)), repeat=2))),
+                ("q1", q1, "Real", [], dQ), ("q2", q2, "Real", [], dQ),
+                ("wa", wa, "|my sort|", ["MS"], dU), ("wb", wb, "|my sort|", ["MS"], dU),
+                ("wc", wc, "|2nd|", ["S2"], dU), ("wc2", wc2, "|2nd|", ["S2"], dU),
+                (".def_0", d0, "Bool", [], dB), (".def_1", d1, "Bool", [], dB)]:
+            self.symbols[n] = {"node": node, "name": node.symbol_name(), "sort": sort, "uses": uses, "dom": dom,
+                               "custom": bool(uses)}
+        self.key_of = dict((d["name"], k) for k, d in self.symbols.items())
+        self.sort_arity = {"U": 0, "Pair": 2, "V": 0, "MS": 0, "S2": 0}
+        self.sort_key = {"U": "U", "Pair": "Pair", "V": "V", "my sort": "MS", "2nd": "S2"}
         m = mgr
         # id -> (FNode, predicate over {name: python value}, names the predicate reads)
         self.formulas = {
@@ -122,6 +139,17 @@ class Pool(object):
             "Fjj": (m.Equals(j1, j2), lambda e: e["j1"] == e["j2"], ["j1", "j2"]),
             "Fa2": (m.Not(m.Equals(m.Select(m2, j1), m.Select(m2, j2))),
                     lambda e: e["m2"][e["j1"]] != e["m2"][e["j2"]], ["m2", "j1", "j2"]),
+            "Fq": (m.Equals(m.Times(m.Real(3), q1), m.Real(1)), lambda e: 3 * e["q1"] == 1, ["q1"]),
+            "Fq2": (m.LT(m.Plus(q1, q2), m.Real(Fraction(-1, 7))), lambda e: e["q1"] + e["q2"] < Fraction(-1, 7),
+                    ["q1", "q2"]),
+            "Fq3": (m.GT(q2, m.Real(4)), lambda e: e["q2"] > 4, ["q2"]),
+            "Fw": (m.Not(m.Equals(wa, wb)), lambda e: e["wa"] != e["wb"], ["wa", "wb"]),
+            "Fw2": (m.Equals(wc, wc2), lambda e: e["wc"] == e["wc2"], ["wc", "wc2"]),
+            "Fd": (m.And(m.Or(d0, d1), m.Not(d1)), lambda e: (e[".def_0"] or e[".def_1"]) and not e[".def_1"],
+                   [".def_0", ".def_1"]),
+            "Fd2": (m.And(m.Or(d0, a), m.Or(m.Not(d1), b), m.Or(d1, d0)),
+                    lambda e: (e[".def_0"] or e["a"]) and ((not e[".def_1"]) or e["b"]) and (e[".def_1"] or e[".def_0"]),
+                    [".def_0", ".def_1", "a", "b"]),
         }
         # checked statically only (function symbols are outside the wrapper model): V below an array-typed parameter
         g = S("g", tm.FunctionType(BOOL, [tm.ArrayType(BV1, V)]))
@@ -130,7 +158,9 @@ class Pool(object):
         self.not_ = m.Not
         # terms for get_value: id -> FNode
         self.terms = {"a": a, "b": b, "c": c, "v": v, "i": i, "x": x,
-                      "Tv": m.BVAdd(v, m.BV(1, 2)), "Ti": m.Plus(i, m.Int(1))}
+                      "Tv": m.BVAdd(v, m.BV(1, 2)), "Ti": m.Plus(i, m.Int(1)),
+                      "q1": q1, "q2": q2, "Tq": m.Times(q1, m.Plus(q2, m.Real(Fraction(22, 7)))),
+                      ".def_0": d0, ".def_1": d1, "wa": wa, "wc2": wc2}
         self._abs = {}
         self._text = {}
         self.by_text = {}
@@ -153,7 +183,7 @@ class Pool(object):
 
     def names_of(self, node):
         """free symbol names of a node in Python's iteration order (the order the wrapper declares them in)"""
-        return [s.symbol_name() for s in node.get_free_variables()]
+        return [self.key_of[s.symbol_name()] for s in node.get_free_variables()]
 
     def abstraction(self, ident, node):
         """the `expr` token of Drivers/C17.lean for the node that is finally sent"""
@@ -165,7 +195,7 @@ class Pool(object):
                 syms.append("%s:%s:%s" % (n, d["sort"].replace(" ", "~"), "+".join(d["uses"])))
             sorts = []
             for t in self.env.typeso.get_types(node, custom_only=True):
-                sorts.append("%s:%d" % (t.basename, self.sort_arity[t.basename]))
+                sorts.append("%s:%d" % (self.sort_key[t.basename], self.sort_arity[self.sort_key[t.basename]]))
             self._abs[key] = "%s/%s/%s" % (ident, ",".join(syms), ",".join(sorts))
         return self._abs[key]
 
@@ -249,9 +279,33 @@ def const_text(node):
             return str(n) if n >= 0 else "(- %d)" % -n
         if node.is_bv_constant():
             return "#b" + format(node.constant_value(), "0%db" % node.bv_width())
+        if node.is_real_constant():
+            q = Fraction(node.constant_value())
+            return "%d/%d" % (q.numerator, q.denominator)
     except Exception:       # noqa
         pass
     return "?" + str(node)
+
+
+def norm_value(text):
+    """a value text of the solver's reply in the form `const_text` uses: rationals (any legal spelling with `/`, decimals,
+    unary minus) become `numerator/denominator`, exactly; everything else is left alone"""
+    if "/" not in text and "." not in text:
+        return text
+
+    def ev(e):
+        if isinstance(e, str):
+            return Fraction(e)
+        if e[0] == "-" and len(e) == 2:
+            return -ev(e[1])
+        if e[0] == "/" and len(e) == 3:
+            return ev(e[1]) / ev(e[2])
+        raise ValueError(e)
+    try:
+        q = ev(refsolver.parse(refsolver.tokenize(text))[0][0])
+        return "%d/%d" % (q.numerator, q.denominator)
+    except Exception:       # noqa
+        return text
 
 
 _TMP = None
@@ -335,9 +389,16 @@ def _alarm(signum, frame):
 
 
 def _name(z):
+    P = pool()
     if hasattr(z, "symbol_name"):
-        return z.symbol_name()
-    return str(getattr(z, "name", z))
+        return P.key_of.get(z.symbol_name(), z.symbol_name())
+    n = str(getattr(z, "name", z))
+    return P.sort_key.get(n, n)
+
+
+def _key(sym):
+    P = pool()
+    return P.key_of.get(sym.symbol_name(), sym.symbol_name())
 
 
 def snapshot(s):
@@ -352,7 +413,7 @@ VERDICT_OPS = ("solve", "is_sat", "is_valid", "is_unsat")
 def probe_model(mdl, names):
     """everything a model says through its mapping interface about the symbols `names`"""
     P = pool()
-    res = {"items": sorted([k.symbol_name(), const_text(x)] for k, x in mdl), "str_lines": len(str(mdl).split("\n")),
+    res = {"items": sorted([_key(k), const_text(x)] for k, x in mdl), "str_lines": len(str(mdl).split("\n")),
            "in": {}, "value": {}, "value_nc": {}}
     for n in names:
         if n not in P.symbols:
@@ -401,7 +462,7 @@ def model_env_check(P, call, mdl, acc):
     for k, v in mdl:
         env_check(P, "call %s: model key %s" % (call, k), k, acc)
         env_check(P, "call %s: model value of %s" % (call, k), v, acc)
-        n = k.symbol_name()
+        n = _key(k)
         if n in P.symbols and not P.symbols[n]["custom"] and v.is_constant():
             vals[n] = v.constant_value()
         else:
@@ -532,7 +593,7 @@ def run_real(ops, lenient=False, layout=0, companion=None):
                         env_check(P, "call %d: get_value(%s)" % (opi, op[1]), r, rec["env_problems"])
                     elif kind == "model":
                         mdl = s.get_model()
-                        value = sorted([k.symbol_name(), const_text(x)] for k, x in mdl)
+                        value = sorted([_key(k), const_text(x)] for k, x in mdl)
                         out = "model:" + ",".join(k for k, _ in value)
                         model_env_check(P, opi, mdl, rec["env_problems"])
                     elif kind == "is_sat":
@@ -621,9 +682,11 @@ def canon_cmd(text):
         if n == "set-logic":
             return "sl:%s" % c[1], c
         if n == "declare-sort":
-            return "ds:%s:%s" % (c[1], c[2]), c
+            nm = refsolver.unquote(c[1])
+            return "ds:%s:%s" % (P.sort_key.get(nm, nm.replace(" ", "~")), c[2]), c
         if n == "declare-fun" and c[2] == []:
-            return "df:%s:%s" % (c[1], refsolver.render(c[3]).replace(" ", "~")), c
+            nm = refsolver.unquote(c[1])
+            return "df:%s:%s" % (P.key_of.get(nm, nm.replace(" ", "~")), refsolver.render(c[3]).replace(" ", "~")), c
         if n == "assert":
             return "as:%s" % P.by_text.get(refsolver.render(c[1]), "?" + refsolver.render(c[1]).replace(" ", "~")), c
         if n == "push":
@@ -958,13 +1021,15 @@ def analyse(rec):
                 if k < len(send_call) and send_call[k] == gi and log[k][1].startswith("(("):
                     try:
                         pr = refsolver.parse(refsolver.tokenize(log[k][1]))[0][0][0]
-                        reported[refsolver.render(pr[0])] = refsolver.render(pr[1])
+                        tt = refsolver.render(pr[0])
+                        reported[P.term_by_text.get(tt, tt)] = norm_value(refsolver.render(pr[1]))
                     except Exception:   # noqa
                         pass
             lv = live + ([pending] if pending else [])
             if kind == "getv":
                 tid = op[1]
                 term_text = P.text(P.terms[tid])
+                term_text = P.term_by_text.get(term_text, term_text)
                 custom = any(P.symbols[n]["custom"] for n in P.names_of(P.terms[tid]))
                 if reported.get(term_text) != rec["values"][oi]:
                     out.append((sig_({"oracle": "value", "call": "get_value",
@@ -1011,6 +1076,8 @@ def analyse(rec):
                             env[n] = txt == "true"
                         elif txt.startswith("#b"):
                             env[n] = int(txt[2:], 2)
+                        elif "/" in txt and not txt.startswith("?"):
+                            env[n] = Fraction(txt)
                         else:
                             try:
                                 env[n] = int(txt.replace("(- ", "-").replace(")", ""))
@@ -1141,7 +1208,7 @@ def static_oracles(ctx):
     for fid, f, expected in cases:
         for label, node in ((fid, f), (fid + ".simplify()", f.simplify()), ("Not(%s).simplify()" % fid, P.not_(f).simplify())):
             ctx.case(None)
-            got = sorted(set(t.basename for t in P.env.typeso.get_types(node, custom_only=True)))
+            got = sorted(set(P.sort_key.get(t.basename, t.basename) for t in P.env.typeso.get_types(node, custom_only=True)))
             if label == fid and [u for u in expected if u not in got]:
                 ctx.report_s({"oracle": "types", "defect": "get_types-misses-sort"},
                              "get_types(%s, custom_only=True) = %s lacks %s, mentioned by the sorts of its symbols: "
@@ -1284,6 +1351,17 @@ def random_sequence(rng, length):
 
 
 SCENARIOS = [
+    # exact rationals: the values reported (`(/ 1 3)`, `(- (/ 22 7))`, a big numerator) come back exactly
+    [["add", "Fq"], ["solve"], ["getv", "q1"], ["model"], ["push", 1], ["add", "Fq2"], ["solve"], ["model"], ["getv", "Tq"],
+     ["pop", 1], ["add", "Fq3"], ["solve"], ["model"], ["getv", "q2"]],
+    [["add", "Fq"], ["solve"], ["getv", "q1"], ["model"], ["push", 1], ["add", "Fq2"], ["solve"], ["model"], ["getv", "Tq"],
+     ["pop", 1], ["add", "Fq3"], ["solve"], ["model"], ["getv", "q2"]],
+    # names that need quoting, for sorts and for symbols, in declare-sort / declare-fun / assert / get-value
+    [["add", "Fw"], ["solve"], ["push", 1], ["add", "Fw2"], ["solve"], ["pop", 1], ["is_sat", "Fw2"], ["reset"],
+     ["add", "Fw2"], ["add", "Fw"], ["solve"], ["getv", "wa"]],
+    # user symbols named like the binders the DAG printer generates
+    [["add", "Fd"], ["solve"], ["model"], ["getv", ".def_0"], ["push", 1], ["add", "Fd2"], ["solve"], ["model"],
+     ["is_valid", "Fd"], ["pop", 1], ["is_unsat", "Fd2"]],
     # models returned earlier keep their values while the solver goes on (push / assert / solve / get_model / pop)
     [["add", "Fab"], ["solve"], ["model"], ["push", 1], ["add", "Fa"], ["add", "Fvi"], ["solve"], ["model"], ["pop", 1],
      ["add", "Fiv"], ["solve"], ["model"], ["reset"], ["add", "Fna"], ["solve"], ["model"]],
@@ -1388,7 +1466,7 @@ def _work_factory(case):
         try:
             if kind == "model":
                 mdl = fac.get_model(f, solver_name=name, logic=QF_AUFBVLIRA)
-                out = "none" if mdl is None else "model:" + ",".join(sorted(k.symbol_name() for k, _ in mdl))
+                out = "none" if mdl is None else "model:" + ",".join(sorted(_key(k) for k, _ in mdl))
             else:
                 r = {"is_sat": fac.is_sat, "is_valid": fac.is_valid, "is_unsat": fac.is_unsat}[kind](
                     f, solver_name=name, logic=QF_AUFBVLIRA)
@@ -1429,7 +1507,7 @@ def _work_factory(case):
             elif mdl is not None and not any(P.symbols[n]["custom"] for n in names):
                 acc = []
                 model_env_check(P, call, mdl, acc)
-                got = dict((k.symbol_name(), v.constant_value()) for k, v in mdl if v.is_constant())
+                got = dict((_key(k), v.constant_value()) for k, v in mdl if v.is_constant())
                 if not all(n in got for n in P.names_of(f.simplify())):
                     acc.append(["missing-symbol", "%s(%s) has no value for some symbol of the formula: %s" % (call, fid, got)])
                 elif all(n in got for n in names) and not pred(got):
